@@ -7,10 +7,13 @@
    and the queue is sound (every queued address is an unstaking validator with that completion time), so
    EndBlock never releases anybody early (App/QueueProofs.v); the index is also COMPLETE (every staked unjailed
    validator is indexed under the key of its current stake) for well-formed addresses (App/IndexComplete.v).
-   Oracle-only: the labelled transition relation as such (checked per op on the implementation). *)
+   The labelled transition relation itself (App/TransitionProofs.v): in every step of every history the status of an address
+   is unchanged, or changes by exactly one of: its own delivered stake (unknown/unstaked -> staked, amount >= the minimum),
+   its own delivered begin-unstake (staked -> unstaking), release at an EndBlock (unstaking -> removed), a forced unstake
+   in a BeginBlock (any -> unstaked). *)
 From Coq Require Import List ZArith NArith Bool.
 From PM Require Import Base.Bytes Store.KV Store.MergeProofs Num.IntModel Num.DecModel Num.DecProofs
-  App.Model App.BankProofs App.TxProofs App.KeyProofs App.PosProofs App.IndexProofs App.IndexComplete App.QueueProofs App.ExportProofs App.Examples App.Invariants.
+  App.Model App.BankProofs App.TxProofs App.KeyProofs App.PosProofs App.IndexProofs App.IndexComplete App.QueueProofs App.ExportProofs App.TransitionProofs App.Examples App.Invariants.
 Import ListNotations.
 Local Open Scope Z_scope.
 
@@ -30,6 +33,25 @@ Theorem C06_maturity_never_early s k l : 0 <= btime s < 256 ^ 8 ->
 Proof. exact (mature_slots_are_due s k l). Qed.
 Theorem C06_payout_is_whole_stake s a v s' : bank_ok s -> finish_unstaking s a v = Some s' -> bank_ok s'.
 Proof. exact (finish_unstaking_pres s a v s'). Qed.
+(* ---- legal transitions only: every step of every history, every address ---- *)
+Theorem C06_only_legal_transitions s o s' b : dsorted true (vals s) -> step s o = Some s' ->
+  dsorted true (vals s') /\ (st s' b = st s b \/ legal_change s o b (st s b) (st s' b)).
+Proof. exact (step_transitions s o s' b). Qed.
+Theorem C06_legal_change_reading s o b before after : legal_change s o b before after ->
+  match o with
+  | OBegin _ _ _ _ _ => (exists k, before = Some k) /\ after = Some 0%N
+  | OTx t => msg_signer (t_msg t) = b /\
+             ((exists pk amt, t_msg t = MStake pk b amt /\ (before = None \/ before = Some 0%N) /\ after = Some 2%N /\ p_min_stake (pp s) <= amt) \/
+              (t_msg t = MUnstake b /\ before = Some 2%N /\ after = Some 1%N))
+  | OEnd => before = Some 1%N /\ after = None
+  | _ => False
+  end.
+Proof.
+  destruct o as [h t p vs es|t|a amt|a sev| |]; cbn [legal_change]; auto.
+  intros [Sg Ch]. split; auto. destruct (t_msg t); cbn [msg_change] in Ch; try contradiction.
+  - destruct Ch as (-> & B & A & M). left. exists pk, amt. auto.
+  - destruct Ch as (-> & B & A). right. auto.
+Qed.
 (* ---- every reachable state of every history ---- *)
 Theorem C06_index_sound_all_histories ops s s' : idx_sound s -> run ops s = Some s' -> idx_sound s'.
 Proof. exact (run_is ops s s'). Qed.
@@ -99,6 +121,7 @@ Example C06_ex : exists s, ex_final = Some s /\ aget (accts s) A2 = Some 3000000
 Proof. destruct ex_final_some as (s & E & _ & B & V & _). eauto. Qed.
 Print Assumptions C06_jail_removes_index_entry.
 Print Assumptions C06_restart_from_export_is_identity.
+Print Assumptions C06_only_legal_transitions.
 Print Assumptions C06_import_establishes_invariants.
 Print Assumptions C06_maturity_never_early.
 Print Assumptions C06_index_sound_all_histories.
